@@ -1,7 +1,7 @@
 (** Correspondence for C16: the client's cache after it reports being
     connected again and the stream is quiescent, against [reconnect_fixed]
     applied to the database contents at that time. *)
-From LOV Require Export Cli.Reconnect Corr.Rows Corr.Common.
+From LOV Require Export Cli.Reconnect Cli.Leader Corr.Rows Corr.Common.
 From Coq Require Import List.
 Import ListNotations.
 
@@ -11,7 +11,7 @@ Record step := mkStep {
   st_monitors : list (list sym);     (* the tables of each monitor the client holds *)
   st_db : otables;                   (* database contents when the client is connected again and quiescent *)
   st_cache : otables }.              (* the client's cache then, every table of the schema *)
-Definition case := list step.
+
 
 Definition tables_fun (o : otables) : tcachef :=
   fun t => match List.find (fun tl => N.eqb tl.1 t) o with
@@ -25,10 +25,26 @@ Definition step_ok (s : step) : bool :=
   let want := reconnect_fixed d c (st_monitors s) in
   forallb (fun tl => bool_decide (c tl.1 = want tl.1)) (st_cache s).
 
-Fixpoint check (c : case) : nat :=
+Fixpoint check_steps (c : list step) : nat :=
   match c with
   | [] => 0
-  | s :: c' => if step_ok s then check c' else 1
+  | s :: c' => if step_ok s then check_steps c' else 1
+  end%nat.
+
+(** a leader-only client deciding where to attach: what every endpoint of its
+    list, in the list's order, reports in _Server.Database, and the endpoint
+    it ended up on ([None]: it refused them all) *)
+Record ldecision := mkLeader { l_db : sym; l_eps : list (list srow); l_obs : option nat }.
+
+Definition onat_eqb (a b : option nat) : bool :=
+  match a, b with Some x, Some y => Nat.eqb x y | None, None => true | _, _ => false end.
+
+Inductive case := CSteps (l : list step) | CLeader (d : ldecision).
+
+Definition check (c : case) : nat :=
+  match c with
+  | CSteps l => check_steps l
+  | CLeader d => if onat_eqb (choose_endpoint (l_db d) (l_eps d)) (l_obs d) then 0 else 2
   end%nat.
 
 Definition run := run_cases check.
